@@ -144,6 +144,62 @@ def build_T20(tree):
     return '\n\n'.join([t1, t2, t3, t4, t5, t6]), sha
 
 
+def _lean_str(x):
+    return '"' + x.replace('\\', '\\\\').replace('"', '\\"') + '"'
+
+
+def build_T21(tree):
+    """Cast sites: every statement of `_check_and_cast_pixel_array`, `_combine_segments` and
+    `_get_segment_pixel_array` that narrows / rounds / scales pixel values (`astype`, `np.around`, a product with
+    `max_fractional_value`, `argmax`/`max` with an `out=` array), in source order, each with the chain of `if` tests
+    it sits under.  The hand-written model has a `wrap` exactly at these sites and in this order relative to the
+    comparison with the segment number; the list is a literal table the property file pins (`cast_sites_pinned`)."""
+    entries = []
+    spans = []
+
+    def interesting(node):
+        for n in ast.walk(node):
+            if isinstance(n, ast.Call):
+                f = ast.unparse(n.func)
+                if f.endswith('.astype') or f in ('np.around', 'numpy.around', 'np.round', 'np.rint', 'np.floor', 'np.ceil') \
+                        or any(k.arg == 'out' for k in n.keywords):
+                    return True
+            if isinstance(n, ast.BinOp) and isinstance(n.op, ast.Mult) and 'max_fractional_value' in ast.unparse(n):
+                return True
+            if isinstance(n, ast.AugAssign) and 'max_fractional_value' in ast.unparse(n):
+                return True
+        return False
+
+    def walk(stmts, ctx, name):
+        for st in stmts:
+            if isinstance(st, ast.If):
+                t = _norm(st.test)
+                walk(st.body, ctx + [t], name)
+                walk(st.orelse, ctx + ['not(' + t + ')'], name)
+            elif isinstance(st, (ast.For, ast.While, ast.With, ast.Try)):
+                raise Unsupported(f'{name}: compound statement {type(st).__name__} in a cast-carrying function')
+            elif isinstance(st, (ast.Assign, ast.AugAssign, ast.AnnAssign, ast.Return, ast.Expr)):
+                if isinstance(st, ast.Expr) and isinstance(st.value, ast.Constant):
+                    continue
+                if interesting(st):
+                    entries.append(f'{name} | {" & ".join(ctx) or "-"} | {_norm(st)}')
+            elif isinstance(st, (ast.Raise, ast.Pass)):
+                continue
+            else:
+                raise Unsupported(f'{name}: statement {type(st).__name__} not understood')
+
+    for qual in ('Segmentation._check_and_cast_pixel_array', 'Segmentation._combine_segments',
+                 'Segmentation._get_segment_pixel_array'):
+        fn = find_func(tree, qual)
+        walk(fn.body, [], qual.split('.')[-1])
+        spans.append(fn)
+    text = ('/-- statements of the cast-carrying functions of seg/sop.py that narrow, round or scale pixel values, in source\n'
+            '    order: "function | enclosing if-tests | statement" -/\n'
+            'def segCastSites : List String :=\n  [' + ',\n   '.join(_lean_str(e) for e in entries) + ']')
+    return text, span_sha(spans)
+
+
 TARGETS = {
     'T20': {'file': 'seg/sop.py', 'build': build_T20},
+    'T21': {'file': 'seg/sop.py', 'build': build_T21},
 }
